@@ -610,6 +610,17 @@ impl ExecutableContent for SendParameters {
             return false;
         }
 
+        // The timer schedules by calendar date: a delay that leads beyond the representable dates is
+        // as illegal as a negative one (the timer thread or this thread would panic on the overflow).
+        let delay_representable = chrono::Duration::try_milliseconds(delay_ms)
+            .and_then(|d| chrono::Utc::now().checked_add_signed(d))
+            .is_some();
+        if !delay_representable {
+            error!("Send: delay of {} ms is too large", delay_ms);
+            datamodel.internal_error_execution_for_event(&send_id, &fsm.caller_invoke_id);
+            return false;
+        }
+
         // Work on a copy: the value stays locked otherwise, and an event name or type that is given by the
         // same variable (eventexpr="v" targetexpr="v") would lock it a second time.
         let target_guard = target.lock().unwrap().clone();
